@@ -834,14 +834,14 @@ class Lexer:
                 indexes = stringify_path.split(".")
                 last_index = indexes.pop()
                 for index in indexes:
-                    if index not in json_:
+                    if not isinstance(json_, dict) or index not in json_:
                         raise JMCSyntaxException(
                             f"Stringifying path({stringify_path}) that doesn't exist in JSON({json_path})",
                             stringify_path_token,
                             tokenizer,
                         )
                     json_ = json_[index]
-                if last_index not in json_:
+                if not isinstance(json_, dict) or last_index not in json_:
                     raise JMCSyntaxException(
                         f"Stringifying path({stringify_path}) that doesn't exist in JSON({json_path})",
                         stringify_path_token,
